@@ -47,8 +47,9 @@ PROP = {
         "order of elements that Less does not separate is unspecified in Go (pdqsort is unstable) and is not compared; on arrays of "
         "more than 12 elements where Less is not a strict weak order the model answers unmodelled and only the permutation clause "
         "is checked, by the oracle",
-        "outside the model (counted as unmodelled): pointer identity in uniq, fmt of pointers, case mapping outside "
-        "the table of Liquid/Unicode.lean in sort_natural, ranges of more than a million items",
+        "outside the model (counted as unmodelled): pointer identity in uniq, fmt of pointers, "
+        "ranges of more than a million items (the case folding of sort_natural is total: every rune is looked up in the tables of "
+        "unicode.ToUpper / unicode.ToLower regenerated from the toolchain, Liquid/Generated/CaseTables.lean)",
         "Liquid/Heap.lean describes Go's slice operations (index, element assignment, reslice, make, append with its in-place case, "
         "copy) and, line by line, values.Convert(v, []any) as convertCallArguments uses it and the bodies of compact concat join map "
         "reverse sort sort_natural first last uniq size default (filters/standard_filters.go, filters/sort_filters.go): checked by the "
